@@ -1,26 +1,37 @@
 #!/bin/bash
-# run_seeded.sh [tier] [name-filter] : apply every seeded change in /verif/seeded to /repo in turn,
+# run_seeded.sh [tier] [name-filter] : apply every seeded change in seeded/ to the repository in turn,
 # run the check of its property (meta.json: property, or check_properties when the change is
-# reported by other properties' checks), restore /repo. A seeded change must be reported (exit 1
-# with a VIOLATION line) by at least one of them; prints one line per change and exits non-zero if
-# any was missed.
+# reported by other properties' checks), restore the repository. A seeded change must be reported
+# (exit 1 with a VIOLATION line) by at least one of them; prints one line per change and exits
+# non-zero if any was missed.
+# By default the repository is /repo and the checks are /verif's. Under `vp run --with-repo` the
+# snapshot of /repo ($VP_RUN_REPO) and the snapshot of /verif (the current directory) are used, so
+# that /repo itself is left alone.
 TIER=${1:-quick}; FILTER=${2:-}
-cd /repo && git diff --quiet || { echo "/repo not clean"; exit 2; }
-mkdir -p /tmp/seeded-logs
+export GOFLAGS=-mod=mod GOPROXY=off GOSUMDB=off GOTOOLCHAIN=local
+V=/verif; R=/repo
+if [ -n "$VP_RUN_REPO" ]; then
+  V=$PWD; R=$VP_RUN_REPO
+  make setup >/dev/null 2>&1 || { echo "setup failed"; exit 2; }
+  export VERIF_DIR=$V VERIF_REPO=$R
+fi
+git -C $R diff --quiet || { echo "$R not clean"; exit 2; }
+L=$(mktemp -d /tmp/seeded-logs.XXXX)
 MISSED=0
-for d in /verif/seeded/*/; do
+for d in $V/seeded/*/; do
   name=$(basename $d)
   [ -n "$FILTER" ] && [[ "$name" != *$FILTER* ]] && continue
   grep -q "\"obsolete\"" $d/meta.json && { echo "$name: skipped (obsolete)"; continue; }
   PROPS=$(python3 -c "import json,sys; m=json.load(open('$d/meta.json')); print(' '.join(m.get('check_properties',[m['property']])))")
-  git -C /repo apply "$d/patch.diff" || { echo "$name: patch does not apply"; MISSED=1; continue; }
+  git -C $R apply "$d/patch.diff" || { echo "$name: patch does not apply"; MISSED=1; continue; }
   CAUGHT=""
   for P in $PROPS; do
-    ( cd /verif && timeout 7200 bin/check $P --tier $TIER > /tmp/seeded-logs/$name.$P.log 2>&1 ); RC=$?
-    if [ $RC -eq 1 ]; then CAUGHT="$CAUGHT $P: $(grep -m1 'violation in' /tmp/seeded-logs/$name.$P.log | cut -c1-150)"; else CAUGHT="$CAUGHT $P: exit=$RC;"; fi
+    ( cd $V && timeout 7200 bin/check $P --tier $TIER > $L/$name.$P.log 2>&1 ); RC=$?
+    if [ $RC -eq 1 ]; then CAUGHT="$CAUGHT $P: $(grep -m1 'violation in' $L/$name.$P.log | cut -c1-150)"; else CAUGHT="$CAUGHT $P: exit=$RC;"; fi
+    [ $RC -eq 1 ] && break
   done
-  git -C /repo checkout -- .
+  git -C $R checkout -- .
   if [[ "$CAUGHT" == *"violation in"* ]]; then echo "$name: caught ($TIER)$CAUGHT"; else echo "$name: NOT caught$CAUGHT"; MISSED=1; fi
 done
-rm -rf /tmp/seeded-logs
+rm -rf $L
 exit $MISSED
